@@ -980,9 +980,9 @@ def run(chk) -> None:
     t0 = time.time()
     _run_a(chk, rnd, thorough)
     t1 = time.time()
-    _run_b(chk, rnd, 1300 if thorough else 150)
+    _run_b(chk, rnd, 1000 if thorough else 150)
     t2 = time.time()
-    _run_c(chk, rnd, 900 if thorough else 90)
+    _run_c(chk, rnd, 700 if thorough else 90)
     chk.extra["wall_parts_s"] = {"A": round(t1 - t0, 1), "B": round(t2 - t1, 1), "C": round(time.time() - t2, 1)}
     chk.exhaustive = True
     chk.extra["exhaustive_part"] = "all 10^6 microsecond fractions per (epoch, tz) combination; all NULL placements of columns of length ≤ 4; the whole types.py table"
